@@ -833,20 +833,22 @@ def rs_consts():
 
 
 def rs_dist_table(ctx, records, w, k):
-    """C05 verdict: TLC pushes exact weights through the table recorded from the real sampler."""
+    """C05 verdict: TLC pushes exact weights through the table recorded from the real sampler, which the harness
+    explores breadth first over the sampler's OWN states (independent of the states the mechanism spec predicts)."""
     tab = os.path.join(w, "table.ndjson")
-    n = 0
-    with open(records) as f, open(tab, "w") as g:
-        for line in f:
-            if '"k":"hdr"' in line:
-                if n == 0:
-                    g.write(line)
-                continue
-            if '"alt"' in line or '"name":"add"' not in line or '"res":"ok"' not in line:
-                continue
-            r = json.loads(line)
-            g.write(json.dumps({"k": "row", "tid": r["tid"], "n_pre": r["n_pre"], "res_pre": r["res_pre"], "res_post": r["res_post"], "w": r["w"]}) + "\n")
-            n += 1
+    stats = vlib.vh(["rsdist", "all", "--k", str(k), "--out", tab], w)
+    n = stats["rows"]
+    ctx.executed += n
+    ctx.e3_calls += n
+    if stats.get("deviation"):
+        ctx.drift += 1
+        ctx.drift_notes.append({"reservoir_random_script_consumed_differently_from_mechanism_spec": stats["deviation"], "k": k,
+                                "exact_distribution_judged_up_to_n": stats["levels_complete"]})
+        log("[P] reservoir k=%d: the code consumes the random script differently from the mechanism spec at n=%s; exact distribution judged only up to n=%d"
+            % (k, stats["deviation"].get("n"), stats["levels_complete"]))
+        if stats["levels_complete"] <= k:
+            ctx.extra.setdefault("exact_distribution_tables", []).append({"k": k, "recorded_draws": 0, "n_checked": "none (call pattern differs)", "rejected": 0})
+            return
     outp, rc, secs = vlib.tlc("P_ReservoirDist", vlib.PCFG, w, env={"TRACE": tab}, workers=1, timeout=1800, xmx="4g")
     txt = open(outp, errors="replace").read()
     m = re.search(r'<<"CHECKED", (\d+), (\d+)>>', txt)
@@ -913,7 +915,22 @@ def rs_e2(ctx, ks, dist):
                     raise
 
 
+def rs_freq(ctx):
+    """C05 measured clause: inclusion counts over seeded runs of the real sampler, judged by P_ReservoirFreq."""
+    w = ctx.sub("rs_freq")
+    p = os.path.join(w, "p.ndjson")
+    stats = vlib.vh(["rsfreq", "all", "--out", p, "--seed", str(ctx.seed), "--runs", "3000"] + ([] if ctx.quick else ["--thorough"]), w)
+    n, rej = vlib.adjudicate("P_ReservoirFreq", p, w, parallel=1)
+    ctx.judged += n
+    ctx.executed += stats["cases"] * stats["runs"]
+    ctx.e3_calls += stats["cases"] * stats["runs"]
+    add_rejects(ctx, rej, p, "rsfreq", "P_ReservoirFreq")
+    ctx.extra["measured_inclusion_frequencies"] = {"configurations": stats["cases"], "runs_each": stats["runs"], "rejected": len(rej)}
+
+
 def run_rs(ctx, dist):
+    if dist:
+        rs_freq(ctx)
     if ctx.quick:
         rs_e1(ctx, [1, 2], [1, 2] if dist else [])
         rs_e2(ctx, [1, 2], dist)
@@ -1246,8 +1263,9 @@ PROPS = {
     "C05": {"run": lambda ctx: run_rs(ctx, True), "level": "model_checking",
             "level_text_extra": "exact for n <= 4k+1, k in {1,2} (k = 3 in the thorough tier); gap phase bound by mechanism",
             "rule": "exact inclusion probabilities by path counting: on the spec (MC_ReservoirDist) and on the table of draws recorded from the real sampler (P_ReservoirDist) for every n <= 4k+1, k in {1,2} (and k = 3 in the thorough tier, with gcd-normalised weights): "
-                    "every plain-phase outcome j and every one of the 4k+1 equiprobable cells of the unit draw at the phase switch is executed; gap phase: scripted unit values on a dyadic grid, the next accepted index must be base + g with GapOK; "
-                    "non-trivial = tagged transitions",
+                    "the table is explored breadth first over the real sampler's OWN states (every state reached, every plain-phase outcome j, every one of the 4k+1 equiprobable cells of the unit draw at the phase switch), so it does not depend on which slot or item the code picks; "
+                    "if the code asks for randomness the script does not provide, the table stops there (drift, no verdict) and the measured clause decides: inclusion counts over 3000 seeded ChaCha runs for 17 (33 thorough) (k, n) pairs, 6 sigma (P_ReservoirFreq; gap regime with the documented 1/k-order bias allowed); "
+                    "gap phase: scripted unit values on a dyadic grid, the next accepted index must be base + g with GapOK; non-trivial = tagged transitions",
             "assumptions": ["uniformity of the RNG (rand's gen_range maps a uniform lattice of words to equiprobable outcomes; self-tested)", "the quantitative bias of gap sampling for n >> 4k is not decided (statement: 'of relative order 1/k')"]},
     "C16": {"run": run_td, "level": "model_checking",
             "rule": "E1: all histories of weighted inserts/reads/clears up to depth 5-6 with ARBITRARY fuse decisions (every scale function at once) and with the pinned K0 rule; "
